@@ -346,6 +346,9 @@ def run_index(case):
     start, step, n = case["start"], case["step"], case["n"]
     coords = am.lattice_floats(start, step, n)
     arrs = [make_axis_array(coords, step), make_axis_array(coords, step, attrs=False)]
+    if all(float(c) == int(c) for c in coords):
+        # the same axis with integer-typed coordinates (frame / sample numbers, possibly negative): queries keep their own type
+        arrs.append(make_axis_array(np.array([int(c) for c in coords], dtype=np.int64), step))
     calls = 0
     bad = 0
     queries = []
